@@ -3,6 +3,7 @@
 // ---------------------------------------------------------------------------------------------
 impl VxFromStr for dc_relations::VersionConstraint {
     type VxErr = String;
-    open spec fn parse_spec(s: Seq<char>) -> Option<dc_relations::VersionConstraint> { vconstraint_parse(s) }
+    open spec fn parse_rel(s: Seq<char>, v: dc_relations::VersionConstraint) -> bool { vconstraint_parse(s) == Some(v) }
+    open spec fn parse_err(s: Seq<char>) -> bool { vconstraint_parse(s) is None }
     fn vx_from_str(s: &str) -> (r: Result<dc_relations::VersionConstraint, String>) { dc_relations::VersionConstraint::from_str(s) }
 }
